@@ -725,7 +725,13 @@ func (x *Exec) step(s *State, in ssa.Instruction) bool {
 	case *ssa.DebugRef:
 		if id, ok := v.Expr.(*ast.Ident); ok && id.Name != "_" {
 			if _, has := fr.regs[v.X]; has || isConstOrGlobal(v.X) {
-				fr.locals[id.Name] = localRef{v.X, v.IsAddr}
+				// a variable whose address is known is always read through its
+				// address (a later rvalue use only names a copy of the value
+				// it had then)
+				if old, ok := fr.locals[id.Name]; ok && old.isAddr && !v.IsAddr && old.obj != nil && old.obj == v.Object() {
+					return adv()
+				}
+				fr.locals[id.Name] = localRef{v.X, v.IsAddr, v.Object()}
 			}
 		}
 		return adv()
